@@ -33,6 +33,17 @@ type monC03 struct {
 	M      []c03Marker
 	Opened int
 	Unopen int
+	// the key stream (key ids, counter) of the last data message of each side: AES-CTR output under a repeated key
+	// stream is readable to anyone who knows or guesses one of the two plaintexts. A sender always uses its newest key
+	// pair and key ids only grow, so comparing with the previous message suffices.
+	Last [2]c03Stream
+}
+
+type c03Stream struct {
+	Set        bool
+	Our, Their uint32
+	Ctr        uint64
+	Stream     string
 }
 
 // c03Readable: does the wire output contain the text in readable form (raw, inside base64 armour, across fragments)?
@@ -242,6 +253,10 @@ func verifC03Sys(id string, seed int64) *verifSys {
 			if info.OK {
 				m.Opened++
 				opened = append(opened, info.Plain)
+				if l := m.Last[e.I]; l.Set && l.Stream == info.Stream {
+					bad("key-stream-reused", "%s enciphered two messages under the same AES key and counter (key ids %d/%d, counter %d): the xor of the two ciphertexts is the xor of the plaintexts", p.Name, info.SenderKeyID, info.RecipientKeyID, info.Ctr)
+				}
+				m.Last[e.I] = c03Stream{true, info.SenderKeyID, info.RecipientKeyID, info.Ctr, info.Stream}
 			} else {
 				m.Unopen++
 			}
